@@ -557,3 +557,10 @@ func bytesEq(a, b []byte) bool { return bytes.Equal(a, b) }
 
 type kyberPoint = kyber.Point
 type kyberScalar = kyber.Scalar
+
+func newBig(hexs string) (*big.Int, bool) {
+	if hexs == "" {
+		return big.NewInt(0), false
+	}
+	return new(big.Int).SetString(hexs, 16)
+}
